@@ -135,7 +135,8 @@ def run(ctx: Ctx):
                        and u(d.value).replace('"', "'") == f"int({rl.target.id}['epoch'])"}
     urest = []
     for n in ast.walk(rl):
-        if isinstance(n, ast.For) and "user_entry_types" in u(n.iter) and isinstance(n.target, ast.Tuple) \
+        if isinstance(n, ast.For) and ("user_entry_types" in u(n.iter) or any("user_entry_types" in u(e_) for e_ in rd_cache.derives(n.iter).exprs)) \
+                and isinstance(n.target, ast.Tuple) \
                 and len(n.target.elts) == 2:
             kn, tn = [x.id for x in n.target.elts]
             for st_ in n.body:
@@ -404,18 +405,19 @@ def _s6(ctx, upd, rd, pm, rowvar, rel, where):
               and u(n.targets[0].value) != rowvar]
     col.floor("row_lr_stores", len(row_lr), 2)
     col.count("optimizer_lr_stores", len(opt_lr))
-    # the optimizer store: for every param group, same value as the row store in the same branch
+    # the optimizer store covers every param group (the transition table interprets one representative iteration and decides the
+    # value written, the gating and the pairing with the row store; that the loop is over all groups is decided here)
+    from sa.inline import Inliner
+    inl = Inliner(upd.node, rd, keep={rowvar})
     for o in opt_lr:
         loop = pm.get(o)
-        okloop = isinstance(loop, ast.For) and u(loop.iter) == "optimizer.param_groups" \
+        while loop is not None and not isinstance(loop, (ast.For, ast.FunctionDef)):
+            loop = pm.get(loop)
+        okloop = isinstance(loop, ast.For) and inl.text(loop.iter) in ("optimizer.param_groups", "list(optimizer.param_groups)") \
             and isinstance(loop.target, ast.Name) and u(o.targets[0].value) == loop.target.id
-        block = pm.get(loop) if okloop else None
-        sibs = [s for s in getattr(block, "body", []) if s in row_lr] if block is not None else []
-        ok = okloop and len(sibs) == 1 and u(sibs[0].value) == u(o.value)
-        col.ob("G10", "S6", f"{where}::lr-write-through", ok,
-               f"`{u(o)}` is not paired, in the same branch and for every param group, with `{rowvar}['lr'] = "
-               f"{u(o.value)}`: the optimizer and the recorded history disagree about the learning rate", rel,
-               o.lineno, sample=dict(optimizer_store=u(o), row_stores=[u(s) for s in sibs]))
+        col.ob("G10", "S6", f"{where}::lr-write-through", okloop,
+               f"`{u(o)}` is not executed for every param group of the optimizer: the optimizer and the recorded history "
+               f"disagree about the learning rate", rel, o.lineno, sample=dict(optimizer_store=u(o)))
     for r in row_lr:
         gs = [(u(t), pol) for t, pol in guards_of(pm, r)]
         if any("is None" in g and pol for g, pol in gs):
@@ -424,26 +426,13 @@ def _s6(ctx, upd, rd, pm, rowvar, rel, where):
                    f"the unknown initial rate is filled with `{u(r.value)}` (expected the optimizer default)", rel,
                    r.lineno, sample=u(r))
             continue
-        block = pm.get(r)
-        has_opt = any(isinstance(s, ast.For) and any(o in list(ast.walk(s)) for o in opt_lr)
-                      for s in getattr(block, "body", []))
-        col.ob("G10", "S6", f"{where}::row-lr-change-reaches-optimizer", has_opt,
-               f"`{u(r)}` changes the recorded rate without writing it into the optimizer", rel, r.lineno,
-               sample=u(r))
-        # new = old * factor, old = row['lr'], guarded by old - new > 10 ** log10_epsilon
-        der = rd.derives(r.value)
-        n_ = Normalizer(subst={d.name: d.value for d in der.defs if d.kind == "assign" and d.value is not None
-                               and d.name != rowvar and not isinstance(d.value, ast.Call)})
+        # new = old * factor, old = row['lr']
+        n_ = Normalizer()
         want = ast.parse(f"{rowvar}['lr'] * self.params.reduce_lr_factor", mode="eval").body
-        okv = not padd(n_.poly(r.value), Normalizer().poly(want), -1)
+        okv = not padd(n_.poly(inl.expand(r.value)), Normalizer().poly(want), -1)
         col.ob("G12", "S6", f"{where}::new-lr=old*factor", okv,
                f"the new rate `{u(r.value)}` does not normalise to row['lr'] * reduce_lr_factor", rel, r.lineno,
-               sample=pstr(n_.poly(r.value)))
-        gtxt = [g for g, pol in gs if pol]
-        okg = any("rlr_patience_cd" in g for g in gtxt)
-        col.ob("G10", "S6", f"{where}::lr-change-only-when-patience-exhausted", okg,
-               f"the rate changes under guards {gtxt}; expected inside 'not row[rlr_patience_cd]'", rel, r.lineno,
-               sample=gtxt)
+               sample=pstr(n_.poly(inl.expand(r.value))))
 
 
 MANIFEST = dict(
@@ -504,8 +493,9 @@ def _mutants():
         M("continue-training-differs", T, "if self.params.early_stopping_threshold and (not info['es_patience_cd']):\n    cont = False\nreturn cont",
           "if self.params.early_stopping_threshold and (not info['es_resume_cd']):\n    cont = False\nreturn cont", "stop-rule"),
         M("lr-not-written-to-optimizer", T, "for param_group in optimizer.param_groups:\n    param_group['lr'] = new_lr", "pass",
-          "G10/S6"),
-        M("optimizer-gets-old-lr", T, "param_group['lr'] = new_lr", "param_group['lr'] = old_lr", "lr-write-through"),
+          "countdown-transition-table"),
+        M("optimizer-gets-old-lr", T, "param_group['lr'] = new_lr", "param_group['lr'] = old_lr", "countdown-transition-table"),
+        M("first-param-group-only", T, "for param_group in optimizer.param_groups:\n    param_group['lr'] = new_lr", "optimizer.param_groups[0]['lr'] = new_lr", "lr-write-through"),
         M("new-lr-additive", T, "new_lr = old_lr * self.params.reduce_lr_factor", "new_lr = old_lr - self.params.reduce_lr_factor",
           "new-lr=old*factor"),
         M("fmt-key-mixup", T, "wr.writerow([self.fmt_dict[k].format(info[k]) for k in names])",
